@@ -102,7 +102,7 @@ struct Case {
 fn gen(rng: &mut Rng, kind: usize, case: u64) -> Case {
     let len = 2 + rng.usize(63);
     let mut t = rng.range_i64(-1_000_000_000_000_000, 1_000_000_000_000_000);
-    let signal = case % 4;
+    let signal = if rng.chance(0.12) { 4 } else { case % 4 }; // 4 = creeping: a far-from-zero value moving by a few units in its last place per sample
     let mut x = rng.moderate(1e3) as f64;
     let amp = rng.log_uniform(1e-2, 1e4);
     let freq = rng.log_uniform(1e-3, 10.0);
@@ -126,6 +126,7 @@ fn gen(rng: &mut Rng, kind: usize, case: u64) -> Case {
                 0 => { x += rng.uniform(-1.0, 1.0) * amp * 0.1; x }
                 1 => amp * (freq * i as f64).sin() + x,
                 2 => { if rng.chance(0.2) { x = rng.moderate(1e4) as f64; } x } // steps: long runs of exactly equal samples
+                4 => { let xf = (x as f32) as f64; if xf.abs() >= 1e-3 { x = xf + rng.sign() * (1 + rng.below(24)) as f64 * xf.abs() * (2.0f64).powi(-23); } else { x = rng.moderate_nz(1e3) as f64; } x }
                 _ => rng.moderate(1e4) as f64,
             };
             h.push(Ev::Some(t, v.clamp(-1e4, 1e4) as f32));
@@ -163,6 +164,11 @@ fn run_real(c: &Case, shift: i64) -> Vec<O> {
 }
 /// `skip[i]`: do not call get() after event i (placeholder O::None there, never compared)
 fn run_observed(c: &Case, shift: i64, skip: Option<&[bool]>) -> Vec<O> {
+    run_alongside(c, shift, skip, false)
+}
+/// `alongside`: one more instance of every stream type lives next to the one under test and is updated with the same
+/// timestamps (other values) just before it at every step
+fn run_alongside(c: &Case, shift: i64, skip: Option<&[bool]>, alongside: bool) -> Vec<O> {
     let src = Src::<Quantity>::new();
     let mut s = match c.kind {
         0 => S::I(IntegralStream::new(src.dynref())),
@@ -173,7 +179,19 @@ fn run_observed(c: &Case, shift: i64, skip: Option<&[bool]>) -> Vec<O> {
     };
     let unit = Unit::new(c.unit.0, c.unit.1);
     let mut outs = Vec::with_capacity(c.h.len());
+    let dsrc = Src::<Quantity>::new();
+    let mut others = (IntegralStream::new(dsrc.dynref()), DerivativeStream::new(dsrc.dynref()));
+    let (d2, d3, d4) = (Src::<Quantity>::new(), Src::<Quantity>::new(), Src::<Quantity>::new());
+    let mut others2 = (AccelerationToState::new(d2.dynref()), VelocityToState::new(d3.dynref()), PositionToState::new(d4.dynref()));
     for e in &c.h {
+        if alongside {
+            match e {
+                Ev::Some(t, v) => { let w = 7.0 - 0.5 * *v; dsrc.some(*t + shift, Quantity::new(w, unit)); d2.some(*t + shift, Quantity::new(w, MILLIMETER_PER_SECOND_SQUARED)); d3.some(*t + shift, Quantity::new(w, MILLIMETER_PER_SECOND)); d4.some(*t + shift, Quantity::new(w, MILLIMETER)); }
+                Ev::None => { dsrc.none(); d2.none(); d3.none(); d4.none(); }
+                Ev::Err(x) => { dsrc.err(*x); d2.err(*x); d3.err(*x); d4.err(*x); }
+            }
+            let _ = catch(|| { let _ = others.0.update(); let _ = others.1.update(); let _ = others2.0.update(); let _ = others2.1.update(); let _ = others2.2.update(); let _ = (others.0.get(), others.1.get(), others2.0.get(), others2.1.get(), others2.2.get()); });
+        }
         match e {
             Ev::Some(t, v) => src.some(*t + shift, Quantity::new(*v, unit)),
             Ev::None => src.none(),
@@ -314,6 +332,16 @@ fn main() {
             for i in 0..outs.len().min(sp.len()) {
                 if !skip[i] && sp[i] != outs[i] && !(matches!((&sp[i], &outs[i]), (O::Q(_, a, _), O::Q(_, b, _)) if a.is_nan() && b.is_nan())) {
                     rep.violation(&format!("C10/get-schedule-affects-output/{}", name), sub, case, format!("event {}: {:?} when read after every update, {:?} when earlier reads are skipped; case={:?}", i, outs[i], sp[i], c));
+                    break;
+                }
+            }
+            // ... nor on other stream instances living (and being updated with the same timestamps) alongside
+            let al = run_alongside(&c, 0, None, true);
+            rep.eval();
+            rep.tally("runs_with_other_instances_alongside");
+            for i in 0..outs.len().min(al.len()) {
+                if al[i] != outs[i] && !(matches!((&al[i], &outs[i]), (O::Q(_, a, _), O::Q(_, b, _)) if a.is_nan() && b.is_nan())) {
+                    rep.violation(&format!("C10/instances-not-independent/{}", name), sub, case, format!("event {}: {:?} alone, {:?} with other stream instances updated alongside; case={:?}", i, outs[i], al[i], c));
                     break;
                 }
             }
